@@ -2,7 +2,7 @@
    everything encoded as lists of integers so that the OCaml driver and the in-Coq re-evaluation
    (Eval vm_compute in run [...]) need no per-family glue. *)
 From Coq Require Import ZArith NArith List.
-From Cqos Require Import Base RateConv Float64 Divider.
+From Cqos Require Import Base RateConv Float64 Divider Sched Utils.
 Import ListNotations.
 Open Scope Z_scope.
 
@@ -33,9 +33,70 @@ Definition run_divider (args : list Z) : list Z :=
   | _ => [-1]
   end.
 
+Definition divider_of (kind : Z) : Divider := if kind =? 0 then fair else rate part_f.
+Definition bool_z (b : bool) : Z := if b then 1 else 0.
+
+Definition run_new_code (dv : Divider) (ps : list N) (h : N) : list Z :=
+  match prepare_v2 dv ps h with
+  | inl _ => [0]
+  | inr EHandlersZero => [2]
+  | inr EInputEmpty => [3]
+  | inr ETooSmall => [4]
+  | inr (EDivider DividerBad) => [5]
+  | inr (EDivider SumOverflow) => [6]
+  end.
+Definition sweep_limits : list Z := [0; 1; 2; 5; 10; 20; 33; 50; 75; 100].
+
+(* family 3: [fn; divider; n; ps..; q (or max); limit_num; limit_den] -> [value]
+   fn: 0 IsNonFatalConfig, 1 PickUpMinNonFatalQuantity, 2 PickUpMaxNonFatalQuantity,
+       3 IsSuitableConfig, 4 PickUpMinSuitableQuantity, 5 PickUpMaxSuitableQuantity
+   the limit is the float64 quotient float64(limit_num)/float64(limit_den), computed the same way in Go *)
+Definition run_utils (args : list Z) : list Z :=
+  match args with
+  | fn :: kind :: r =>
+      let '(ps0, r1) := take_list r in
+      let ps := zs_to_ns ps0 in
+      let dv := divider_of kind in
+      match r1 with
+      | [q; ln; ld] =>
+          let q := Z.to_N q in
+          let limit := fdiv (of_Z ln) (of_Z ld) in
+          if fn =? 0 then [bool_z (is_nonfatal ps dv q)]
+          else if fn =? 1 then [Z.of_N (pick_min_nonfatal ps dv q)]
+          else if fn =? 2 then [Z.of_N (pick_max_nonfatal ps dv q)]
+          else if fn =? 3 then [bool_z (is_suitable ps dv q limit)]
+          else if fn =? 4 then [Z.of_N (pick_min_suitable ps dv q limit)]
+          else if fn =? 5 then [Z.of_N (pick_max_suitable ps dv q limit)]
+          else if fn =? 7 then [bool_z (is_nonfatal ps dv q); hd (-1) (run_new_code dv ps q)]
+          else if fn =? 8 then
+            Z.of_N (pick_min_nonfatal ps dv q) :: Z.of_N (pick_max_nonfatal ps dv q) ::
+            map (fun k => bool_z (is_nonfatal ps dv (N.of_nat k))) (seq 1 (N.to_nat q))
+          else if fn =? 9 then
+            Z.of_N (pick_min_suitable ps dv q limit) :: Z.of_N (pick_max_suitable ps dv q limit) ::
+            map (fun k => bool_z (is_suitable ps dv (N.of_nat k) limit)) (seq 1 (N.to_nat q))
+          else if fn =? 10 then
+            bool_z (is_nonfatal ps dv q) :: map (fun l => bool_z (is_suitable ps dv q (of_Z l))) sweep_limits
+          else [-2]
+      | _ => [-1]
+      end
+  | _ => [-1]
+  end.
+
+(* family 4: v2 priority.New acceptance  [divider; H; n; ps..] -> [code]
+   0 accepted, 2 ErrHandlersQuantityZero, 3 ErrInputEmpty, 4 ErrHandlersQuantityTooSmall, 5 ErrDividerBad, 6 overflow *)
+Definition run_new (args : list Z) : list Z :=
+  match args with
+  | kind :: h :: r =>
+      let '(ps0, _) := take_list r in
+      run_new_code (divider_of kind) (zs_to_ns ps0) (Z.to_N h)
+  | _ => [-1]
+  end.
+
 Definition run (args : list Z) : list Z :=
   match args with
   | 1 :: which :: rest => run_rate which rest
   | 2 :: rest => run_divider rest
+  | 3 :: rest => run_utils rest
+  | 4 :: rest => run_new rest
   | _ => [-999]
   end.
